@@ -228,14 +228,14 @@ def entries(ctx):
     for q, name in (('cooler.api.Cooler.bins', 'bins'), ('cooler.api.Cooler.pixels', 'pixels')):
         fa = ctx.fa(q)
         cs = calls(fa, 'cooler.core._selectors.RangeSelector1D')
-        ok = bool(cs) and len(cs[-1].args) >= 3 and cs[-1].args[1] == ('fn', q + '.<locals>._slice') \
-            and cs[-1].args[2] == ('fn', q + '.<locals>._fetch')
+        ok = bool(cs) and len(cs[-1].args) >= 3 and cs[-1].args[1] == ('fn', ctx.repo.func(q + '.<locals>._slice').qualname) \
+            and cs[-1].args[2] == ('fn', ctx.repo.func(q + '.<locals>._fetch').qualname)
         ctx.check(ok, R, f'{name}.selector', ctx.where(fa), found=cs[-1].term if cs else None,
                   expected='RangeSelector1D(None, _slice, _fetch, n)')
     fa = ctx.fa('cooler.api.Cooler.matrix')
     cs = calls(fa, 'cooler.core._selectors.RangeSelector2D')
-    ok = bool(cs) and len(cs[-1].args) >= 3 and cs[-1].args[1] == ('fn', 'cooler.api.Cooler.matrix.<locals>._slice') \
-        and cs[-1].args[2] == ('fn', 'cooler.api.Cooler.matrix.<locals>._fetch')
+    ok = bool(cs) and len(cs[-1].args) >= 3 and cs[-1].args[1] == ('fn', ctx.repo.func('cooler.api.Cooler.matrix.<locals>._slice').qualname) \
+        and cs[-1].args[2] == ('fn', ctx.repo.func('cooler.api.Cooler.matrix.<locals>._fetch').qualname)
     ctx.check(ok, R, 'matrix.selector', ctx.where(fa), found=cs[-1].term if cs else None,
               expected='RangeSelector2D(field, _slice, _fetch, shape)')
 
